@@ -10,6 +10,7 @@ Perturbations are only outcomes a kernel may legally produce:
   * (fault mode) the k-th call of a kind raises an errno that call can raise.
 """
 import ssl
+import sys
 import errno
 import ipaddress
 import socket
@@ -139,8 +140,11 @@ def _connect(self: socket.socket, addr: Any) -> None:
     if S.fail_nonloopback and isinstance(addr, tuple) and len(addr) >= 2 and isinstance(addr[0], str):
         try:
             if not ipaddress.ip_address(addr[0]).is_loopback and not addr[0].startswith('::ffff:127.'):
-                # the sandbox has no network: make the inevitable failure immediate instead of a connect timeout
+                # the sandbox has no network: make the inevitable failure immediate instead of a connect timeout.
+                # The real connect() raises its audit event before the syscall; observers of the attempted
+                # address (rig.audit, C14) must see this attempt exactly as they would see the real one.
                 _count('connect:unreachable')
+                sys.audit('socket.connect', self, addr)
                 raise OSError(errno.ENETUNREACH, 'Network is unreachable (sandbox has no network)')
         except ValueError:
             pass
